@@ -173,3 +173,40 @@ Proof.
     destruct (seq_brun s1 l) as [s2 rs]. destruct (seq_run s1 (flatten_bops l)) as [s3 rs']. cbn in *.
     destruct IH as [-> <-]. split; reflexivity.
 Qed.
+Lemma mod_shift_ne b d : 0 < d < 65536 -> b mod 65536 <> (b + d) mod 65536.
+Proof.
+  intros Hd He.
+  pose proof (Z.div_mod b 65536 ltac:(lia)). pose proof (Z.div_mod (b + d) 65536 ltac:(lia)).
+  pose proof (Z.mod_pos_bound b 65536 ltac:(lia)). pose proof (Z.mod_pos_bound (b + d) 65536 ltac:(lia)).
+  assert (65536 * ((b + d) / 65536 - b / 65536) = d) by lia.
+  assert ((b + d) / 65536 - b / 65536 <= 0 \/ 1 <= (b + d) / 65536 - b / 65536) as [K|K] by lia; nia.
+Qed.
+
+(* the 16-bit values themselves: any two Nexts fewer than 65536 issues apart receive different
+   values, and two Nexts exactly 65536 issues apart receive the same value with rollover counts
+   one apart - each 16-bit value exactly once per lap *)
+Theorem window_distinct : forall ops s, sane s -> roc s + count_next ops < 18446744073709551616 ->
+  forall i j vi ri vj rj, (i < j)%nat -> Z.of_nat j - Z.of_nat i < 65536 ->
+  nth_error (next_trace s ops) i = Some (vi, ri) -> nth_error (next_trace s ops) j = Some (vj, rj) ->
+  vi <> vj.
+Proof.
+  intros ops s Hs Hb i j vi ri vj rj Hij Hw Hi Hj.
+  destruct (next_trace_spec ops s Hs Hb i vi ri Hi) as [Hvi _].
+  destruct (next_trace_spec ops s Hs Hb j vj rj Hj) as [Hvj _].
+  subst vi vj.
+  replace (ext s + 1 + Z.of_nat j) with (ext s + 1 + Z.of_nat i + (Z.of_nat j - Z.of_nat i)) by lia.
+  apply mod_shift_ne. lia.
+Qed.
+
+Theorem window_period : forall ops s, sane s -> roc s + count_next ops < 18446744073709551616 ->
+  forall i j vi ri vj rj, Z.of_nat j = Z.of_nat i + 65536 ->
+  nth_error (next_trace s ops) i = Some (vi, ri) -> nth_error (next_trace s ops) j = Some (vj, rj) ->
+  vj = vi /\ rj = ri + 1.
+Proof.
+  intros ops s Hs Hb i j vi ri vj rj Hd Hi Hj.
+  destruct (next_trace_spec ops s Hs Hb i vi ri Hi) as [Hvi Hri].
+  destruct (next_trace_spec ops s Hs Hb j vj rj Hj) as [Hvj Hrj].
+  subst vi ri vj rj. rewrite Hd.
+  replace (ext s + 1 + (Z.of_nat i + 65536)) with (ext s + 1 + Z.of_nat i + 1 * 65536) by lia.
+  rewrite Z.mod_add by lia. rewrite Z.div_add by lia. split; reflexivity.
+Qed.
